@@ -217,8 +217,10 @@ CTOR_ARGS = {'PERM': None, 'SUBSWAP': 4, 'MPRZ': 1, 'MPRY': 1}
 
 
 def real_params(name, p):
-    """The real parameter vector (radians) encoded by the integer list p of an op record."""
-    if name in ('PERM', 'SUBSWAP') or PARAM_ARITY.get(name, 0) == 0 and name not in ('DIAG', 'MPRZ', 'MPRY'):
+    """The real parameter vector (radians) encoded by the integer list p of an op record (constructor arguments skipped)."""
+    if name == 'PERM' or name == 'SUBSWAP':
+        return []
+    if name not in ('DIAG', 'MPRZ', 'MPRY') and PARAM_ARITY.get(name, 0) == 0:
         return []
     k = CTOR_ARGS.get(name) or 0
     return [x * math.pi / 4 for x in p[k:]]
